@@ -14,7 +14,7 @@ def Rng.below (r : Rng) (n : Nat) : Rng × Nat :=
   let (r', v) := r.next
   (r', if n = 0 then 0 else v % n)
 
-def keys : List Bytes := [[1],[2],[3]]
+def keys : List Bytes := [[1],[2],[3],[4]]
 
 def randSubset (r : Rng) (xs : List Nat) (pPct : Nat) : Rng × List Nat :=
   xs.foldl (fun (acc : Rng × List Nat) x =>
@@ -50,8 +50,16 @@ def mkCompaction (r : Rng) (s : State) (nextNum : Nat) (smart : Bool) : Rng × C
   let (r, q) := r.below (s.lastSeq + 2)
   let merged := mergeAll ((i0 ++ i1).map File.entries)
   let kept := dropLoop q (isBaseLevel s.levels lvl) none merged
-  let (r, outs, n') := randCut r kept nextNum
-  (r, { level := lvl, inputs0 := in0, inputs1 := in1, smallestSnapshot := q, outputs := outs }, n')
+  let (r, outs0, _) := randCut r kept 0
+  -- output numbers: any unused numbers, possibly smaller than existing ones
+  let used := s.levels.flatten.map File.num
+  let mx := used.foldl max 0
+  let unused := (List.range (mx + outs0.length + 4)).filter fun n => n != 0 && !used.contains n
+  let (r, st) := r.below 4
+  let nums := unused.drop st
+  let outs := (outs0.zip nums).map fun (o, n) => (n, o.2)
+  let outs := if outs.length == outs0.length then outs else outs0
+  (r, { level := lvl, inputs0 := in0, inputs1 := in1, smallestSnapshot := q, outputs := outs }, nextNum)
 
 def genAction (r : Rng) (s : State) (nextNum : Nat) : Rng × Action × Nat :=
   let (r, c) := r.below 100
@@ -61,7 +69,7 @@ def genAction (r : Rng) (s : State) (nextNum : Nat) : Rng × Action × Nat :=
       match fuel with
       | 0 => (r, acc)
       | fuel+1 =>
-        let (r, ki) := r.below 3
+        let (r, ki) := r.below 4
         let (r, d) := r.below 100
         let (r, v) := r.below 250
         ops fuel r (acc ++ [(keys.getD ki [1], if d < 35 then none else some [v.toUInt8])])
@@ -71,7 +79,9 @@ def genAction (r : Rng) (s : State) (nextNum : Nat) : Rng × Action × Nat :=
   else if c < 60 then
     let (r, l) := r.below 100
     let lvl := if l < 50 then 0 else if l < 75 then 1 else if l < 90 then 2 else 3
-    (r, .flush nextNum lvl, nextNum + 1)
+    let mx := (s.levels.flatten.map File.num).foldl max 0
+    let (r, gap) := r.below 3
+    (r, .flush (mx + 1 + gap) lvl, nextNum + 1)
   else if c < 88 then
     let (r, sm) := r.below 100
     let (r, c, n') := mkCompaction r s nextNum (sm < 50)
@@ -117,7 +127,24 @@ structure Stats where
   moveOk : Nat := 0
   flushDeep : Nat := 0
   dropped : Nat := 0
+  newerL0 : Nat := 0
+  gap : Nat := 0
+  smallNum : Nat := 0
   deriving Repr
+
+/-- classify the newly allowed situations of an accepted compaction -/
+def classify (s : State) (c : Compaction) : Bool × Bool × Bool :=
+  let lv := s.levels.getD c.level []
+  let i0 := pick lv c.inputs0
+  let r0 := unpick lv c.inputs0
+  let newerL0 := c.level == 0 && (match hull i0 with
+    | some (lo, hi) => r0.any fun g => userRangeOverlaps g lo hi
+    | none => false)
+  let gap := c.level != 0 && r0.any fun g =>
+    (i0.any fun f => kLt f.largest g.smallest) && (i0.any fun f => kLt g.largest f.smallest)
+  let mx := (s.levels.flatten.map File.num).foldl max 0
+  let small := c.outputs.any fun o => o.1 < mx
+  (newerL0, gap, small)
 
 def runOne (seed steps : Nat) (st : Stats) : Except String Stats := do
   let mut r : Rng := ⟨seed⟩
@@ -147,7 +174,11 @@ def runOne (seed steps : Nat) (st : Stats) : Except String Stats := do
       | .compact c =>
         let before := (allEntries s).length
         let after := (allEntries s').length
-        st := { st with compOk := st.compOk + 1, dropped := st.dropped + (before - after) }
+        let (a1, a2, a3) := classify s c
+        st := { st with compOk := st.compOk + 1, dropped := st.dropped + (before - after),
+                        newerL0 := st.newerL0 + (if a1 then 1 else 0),
+                        gap := st.gap + (if a2 then 1 else 0),
+                        smallNum := st.smallNum + (if a3 then 1 else 0) }
       | .trivialMove _ _ => st := { st with moveOk := st.moveOk + 1 }
       | .flush _ l => if l > 0 then st := { st with flushDeep := st.flushDeep + 1 }
       | _ => pure ()
